@@ -18,6 +18,7 @@ if REPLAY is None:
     import z3
     from crosshair.libimpl.builtinslib import (RealBasedSymbolicFloat, SymbolicBool,
                                                SymbolicInt, LazyIntSymbolicStr)
+    from crosshair.libimpl.builtinslib import SymbolicValue as _SymbolicValue
     from crosshair.statespace import context_statespace
     from crosshair.tracers import NoTracing
     from vf import plugin_stats as _ps
@@ -81,9 +82,17 @@ def S(name):
     return _mk(name, lambda n: LazyIntSymbolicStr(n), str)
 
 
+def is_sym(x):
+    """a CrossHair symbolic value (numpy scalars also have a .var attribute - their variance method)"""
+    if REPLAY is not None:
+        return False
+    with NoTracing():
+        return isinstance(x, _SymbolicValue)
+
+
 def zv(x):
     """z3 term of a symbolic or concrete real/int (call under NoTracing)."""
-    if hasattr(x, 'var'):
+    if isinstance(x, _SymbolicValue):
         v = x.var
         if z3.is_int(v):
             return z3.ToReal(v)
@@ -93,7 +102,7 @@ def zv(x):
     if isinstance(x, int):
         return z3.RealVal(x)
     if isinstance(x, float):
-        return z3.RealVal(repr(x))
+        return z3.RealVal(repr(float(x)))
     raise TypeError(type(x))
 
 
